@@ -522,6 +522,8 @@ bool encode_array::push(const struct message &msg)
 			if (!tmp.clen--) {
 				break;
 			}
+			tmp.base = tmp.cont->iov_base;
+			tmp.used = tmp.cont->iov_len;
 			++tmp.cont;
 			continue;
 		}
